@@ -34,6 +34,10 @@ def states(tier, seed):
         st.append(dict(part="cantilever", side=side, ny=ny, sec=sec, fam=fam))
     for lay, (side, ny), rot in itertools.product(["swept", "sweptdi", "kinked"], [("left", 3), ("full", 5)] + ([("left", 4), ("full", 7)] if tier == "thorough" else []), ["z20", "z45", "x30", "y10"]):
         st.append(dict(part="rotate", layout=lay, side=side, ny=ny, rot=rot, fam=fam))
+    # two beam models of different handedness / span type but equal node count solved one after the other in the SAME
+    # process, both orders: each must still agree with the reference frame (no state shared between instances)
+    for (a, b), ny, model in itertools.product(itertools.permutations(["left", "right", "full"], 2), [3, 5], ["tube", "wingbox"]):
+        st.append(dict(part="sequence", sides=[a, b], ny=ny, model=model, layout="sweptdi", sec="varying", fam=fam))
     return st, 0
 
 
@@ -149,6 +153,18 @@ def part_frame(s):
         if not e <= 1e-8:
             viol.append(dict(sig=dict(oracle="superposition", observable="disp", **wh), msg="response to a generic load field differs from superposed unit-load responses by %.2e" % e, measure=float(e)))
     return dict(viol=viol, nontrivial=bool(sc > 0), digest=digest_arrays(U), transitions=6 * ny + 2, validated=val)
+
+
+def part_sequence(s):
+    viol, val, dg = [], 0, []
+    for k, side in enumerate(s["sides"]):
+        r = part_frame(dict(s, part="frame", side=side))
+        val += r["validated"]
+        dg.append(r["digest"])
+        for v in r["viol"]:
+            sig = dict(v["sig"], part="sequence", position=k, after=s["sides"][0] if k else "none")
+            viol.append(dict(sig=sig, msg="model %d (%s) of the sequence %s: %s" % (k, side, s["sides"], v["msg"]), measure=v.get("measure", 1.0)))
+    return dict(viol=viol, nontrivial=True, digest="|".join(dg), transitions=2 * (6 * s["ny"] + 2), validated=val)
 
 
 def part_cantilever(s):
